@@ -1262,8 +1262,8 @@ pub fn run(args: &Args, prop: &'static str) -> Report {
     // family pair: upper x one lower, every single operation (thorough: every pair of operations on a subset)
     for (ui, u) in uppers.iter().enumerate() {
         for (li, l) in lowers.iter().enumerate() {
-            // C11 quick: every second stack (the restart doubles the cost); C10 and thorough: all
-            if prop == "C11" && !thorough && (ui + li) % 2 != 0 {
+            // C11 quick: every third stack (the restart doubles the cost); C10 and thorough: all
+            if prop == "C11" && !thorough && (ui + li) % 3 != 0 {
                 continue;
             }
             let stack = Stack { upper: Some(u.clone()), lowers: vec![l.clone()] };
